@@ -147,6 +147,44 @@ def doc_cases(chk):
                "paths": {"/p": {"get": {"operationId": "o", "responses": {"200": {"description": "ok", "schema": {"$ref": "#/definitions/Holder"}}}}}},
                "definitions": {"Holder": holder, "Leaf": leaf}}
         cases.append({"doc": doc, "origin": "a definition whose default / example reaches $ref nodes through " + ", ".join(edges)})
+    # $ref nodes that carry a default / example of their own (a sibling of the $ref, valid for the target), one per kind of
+    # edge, under definitions, parameters and responses: only the pointer edges (items, additionalProperties, additionalItems)
+    # hand over the stored schema; slice members (allOf, tuple items) and map entries are copied first
+    for i in range(14 if chk.tier == "quick" else 84):
+        leaf = {"type": "object", "properties": {"id": {"type": "integer"}}}
+        kw = rng.choice(["default", "example"])
+        ref = {"$ref": "#/definitions/Leaf", kw: {"id": rng.randint(0, 9)}}
+        edge = ("allof", "allof2", "tuple", "prop", "items", "addl", "addlitems", "anyof", "not")[i % 9]
+        holder = {"type": "object"}
+        if edge == "allof":
+            holder = {"allOf": [ref, {"type": "object", "properties": {"tag": {"type": "string"}}}]}
+        elif edge == "allof2":
+            holder = {"type": "object", "properties": {"in": {"allOf": [{"type": "object"}, ref]}}}
+        elif edge == "tuple":
+            holder = {"type": "object", "properties": {"t": {"type": "array", "items": [ref, {"type": "string"}]}}}
+        elif edge == "prop":
+            holder["properties"] = {"tag": ref}
+        elif edge == "items":
+            holder["properties"] = {"arr": {"type": "array", "items": ref}}
+        elif edge == "addl":
+            holder["additionalProperties"] = ref
+        elif edge == "addlitems":
+            holder["properties"] = {"t": {"type": "array", "items": [{"type": "string"}], "additionalItems": ref}}
+        elif edge == "anyof":
+            holder["properties"] = {"alt": {"anyOf": [ref, {"type": "string"}]}}
+        else:
+            holder["properties"] = {"n": {"not": ref}}
+        where = rng.choice(["definitions", "definitions", "body", "response"])
+        doc = {"swagger": "2.0", "info": {"title": "t", "version": "1"},
+               "paths": {"/p": {"post": {"operationId": "o", "responses": {"200": {"description": "ok", "schema": {"$ref": "#/definitions/Holder"}}}}}},
+               "definitions": {"Holder": holder, "Leaf": leaf}}
+        if where == "body":
+            doc["definitions"]["Holder"] = {"type": "object"}
+            doc["paths"]["/p"]["post"]["parameters"] = [{"name": "b", "in": "body", "schema": holder}]
+        elif where == "response":
+            doc["definitions"]["Holder"] = {"type": "object"}
+            doc["paths"]["/p"]["post"]["responses"]["200"]["schema"] = holder
+        cases.append({"doc": doc, "origin": "a $ref node carrying its own %s, reached through %s under %s" % (kw, edge, where)})
     for i, c in enumerate(cases):
         c["id"] = i
     return cases
